@@ -953,6 +953,15 @@ def minimise_keys(viol):
 
 def finalize(ctx, acc):
     minimise_keys(acc.viol)
+    # outside this property (value listings are not among the observed APIs), recorded so that it is not lost
+    try:
+        from androguard.core import axml
+        from gen import arscgen as G
+        a = axml.ARSCParser(G.serialise(table_from_spec(build_d(("D", 4, 1, "dense", 0, 0)))))
+        a.get_bool_resources("com.a")
+    except Exception as e:      # noqa
+        acc.note("not judged here: get_bool_resources() (and get_arsc_info() through it) raises %s for a bool resource that is "
+                 "true (0xFFFFFFFF): get_resource_bool compares the unsigned data word with -1" % type(e).__name__)
     # vacuity self-test: the judge must see a deliberately wrong model
     import copy
     spec = build_b(("B", "integer", "p-int", "c-int", "sparse", 1, 0))
